@@ -254,6 +254,37 @@ theorem C20_order_restored (out : List (Nat × Nat)) (n : Nat)
   simp only [List.getElem_range]
   exact find_of_mem out h r hnd hm
 
+/-! ## Exotic sequence types are mapped onto the amino-acid alphabet and back -/
+
+/-- The model's amino-acid alphabet is `ProteinSequence.alphabet`, `map_sequence` rejects with `>` (strictly larger
+alphabets only) and takes the code over unchanged. -/
+theorem C20_map_tie :
+    BiotiteModel.Gen.C20.proteinAlphabet = proteinLetters ∧ BiotiteModel.Gen.C20.mapSequenceRejectOp = "Gt" ∧
+    BiotiteModel.Gen.C20.mapSequenceTakesCodeOver = true ∧ proteinLetters.Nodup ∧ '-' ∉ proteinLetters := by decide
+
+/-- **Sequence type round trip.**  For every custom alphabet of size `k` up to the size of the amino-acid alphabet
+(24, *including* 24) and every sequence over it: `map_sequence` succeeds, each symbol is shown to the external program as
+a distinct amino-acid letter (never the gap character), and mapping the letters back by their position returns exactly the
+original codes; for every larger alphabet it raises `TypeError`. -/
+theorem C20_map_sequence_roundtrip (k : Nat) (codes : List Nat) (hc : ∀ c ∈ codes, c < k) :
+    (k ≤ 24 → ∃ ls, mapSequence k codes = .ok ls ∧ ls.map unmapLetter = codes.map some ∧ '-' ∉ ls) ∧
+    (k > 24 → mapSequence k codes = .error .typeError) := by
+  have hlen : proteinLetters.length = 24 := by decide
+  have key : ∀ c, c < 24 → unmapLetter (proteinLetters.getD c '?') = some c ∧ proteinLetters.getD c '?' ≠ '-' := by
+    decide
+  constructor
+  · intro hk
+    refine ⟨codes.map fun c => proteinLetters.getD c '?', by simp [mapSequence, hlen]; omega, ?_, ?_⟩
+    · rw [List.map_map]
+      apply List.map_congr_left
+      intro c hcm
+      exact (key c (by have := hc c hcm; omega)).1
+    · intro hmem
+      obtain ⟨c, hcm, hcc⟩ := List.mem_map.1 hmem
+      exact (key c (by have := hc c hcm; omega)).2 hcc
+  · intro hk
+    simp [mapSequence, hlen]; omega
+
 /-! ## Clean-up exactly once, nothing left behind -/
 
 /-- **Full strength.**  After any history, under any behaviour of the external program (success, reordered or
